@@ -81,6 +81,22 @@ fn a6(b: &[u8; 16]) -> Ipv6Addr {
 }
 
 fn sum_test(c: &SumCase, obs: &mut Obs) -> CheckResult {
+    // The functions are pure: the same answer whatever was computed before on this thread.  The
+    // case is followed by the same data with one address changed (destination, then source) and
+    // by the case itself again.
+    let mut other = c.clone();
+    other.dst[15] ^= 0x5a;
+    other.dst[3] ^= 0x01;
+    sum_one(c, obs)?;
+    sum_one(&other, &mut Obs::default()).map_err(|f| Fail::new(format!("{}:after-other-destination", f.sig), format!("second call on the thread, same source and data, other destination: {}", f.msg)))?;
+    let mut other = c.clone();
+    other.src[15] ^= 0xa5;
+    other.src[3] ^= 0x02;
+    sum_one(&other, &mut Obs::default()).map_err(|f| Fail::new(format!("{}:after-other-source", f.sig), format!("third call on the thread, other source: {}", f.msg)))?;
+    sum_one(c, &mut Obs::default()).map_err(|f| Fail::new(format!("{}:repeated", f.sig), format!("the first call repeated: {}", f.msg)))
+}
+
+fn sum_one(c: &SumCase, obs: &mut Obs) -> CheckResult {
     let d = &c.data;
     let len = d.len();
     let (got, ck_off, pseudo): (u16, usize, Vec<u8>) = match c.kind {
